@@ -341,12 +341,15 @@ def _migration_run(prop, tier):
         "case = one real live migration (scale-out 4->8 or scale-in 8->4 through the real broker, coordinator rounds and two pairs of real proxies) "
         "with 2-3 concurrent clients issuing GET/SET/DEL/APPEND/SETNX/PEXPIRE/PERSIST on keys inside and outside the migrating ranges at random proxies "
         "(following MOVED), while a deterministic scheduler releases one stand-in command at a time (4 policies: random, migration-first, client-first, "
-        "mostly-LIFO); backend_conn_num 1/2; scan_count 1/2/16; plus directed runs with scripted PTTL replies (0, 1, -1, 2^31, 2^63-1); "
+        "mostly-LIFO); backend_conn_num 1/2; scan_count 1/2/16; plus directed runs with scripted PTTL replies (0, 1, -1, 2^31, 2^63-1) and directed "
+        "replays of the schedule TLC found in Migration.tla for the asynchronous owner switch (one pull-path RESTORE held back until commit, new "
+        "metadata and a DEL through the new owner); "
         "non-trivial iff a RESTORE happened while a client operation was in flight",
         ["timers max_blocking_time / max_migration_time are set high: the force-ahead paths are excluded from the claim",
          "the stand-in's DUMP/RESTORE/SCAN semantics (harness/src/simnet.rs) stand for Redis; SCAN keeps Redis's guarantee for keys present during the whole scan",
          "an error reply is treated as 'may or may not have taken effect'",
-         "schedules are sampled by seeded policies; the per-key linearizability decision itself is exact (subset construction in TLA+)"],
+         "schedules are sampled by seeded policies; the per-key linearizability decision itself is exact (subset construction in TLA+)",
+         "Migration.tla assumes the C11 barrier (no command in flight to the source when PreSwitch is entered) and models one key"],
         "schedules sampled")
 
 
